@@ -50,6 +50,51 @@ def read_via(kind, data, path, read_evlrs, chunked):
     return res, log
 
 
+def large_layer(ck, n_files):
+    """files whose point block exceeds every internal block size (1 MiB): the sources that offer only read() and the
+    seekable ones without readinto give the same records and EVLRs, whole and in large pieces"""
+    import laspy
+    for fi in range(n_files):
+        minor, fmt = ck.rng.choice([(4, 6), (4, 7), (2, 1), (4, 1)])
+        size = laspy.PointFormat(fmt).size
+        n = (1 << 20) // size + ck.rng.choice([1500, 7000, 40000])
+        evlrs = [("verif", 3, "after the points", bytes(ck.rng.getrandbits(8) for _ in range(300)))] if minor >= 4 else None
+        las = fio.make_las(ck.rng, minor, fmt, n, evlrs=evlrs, style="ones" if fi % 2 else "random")
+        buf = io.BytesIO()
+        las.write(buf)
+        data = buf.getvalue()
+        ref = laspy.read(io.BytesIO(data))
+        want_pts = ref.points.array.tobytes()
+        want_ev = [c08.canon(v) for v in (ref.evlrs or [])]
+        for kind in ("readonly_iface", "no_readinto"):
+            for how in ("whole", "two_pieces", "big_then_rest"):
+                inp = {"kind": "large_access", "minor": minor, "fmt": fmt, "n": n, "source": kind, "how": how, "point_bytes": n * size}
+                ck.case(("c17big", fi, kind, how), nontrivial=True)
+                ck.count("large_access:" + kind)
+                src = st.ReadOnlyInterface(data) if kind == "readonly_iface" else st.NoReadintoStream(data)
+                try:
+                    with laspy.open(src) as rd:
+                        if how == "whole":
+                            got = rd.read()
+                            pts = got.points.array.tobytes()
+                        else:
+                            k1 = n // 2 if how == "two_pieces" else n - 11
+                            p1 = rd.read_points(k1).array.tobytes()
+                            got = rd.read()
+                            pts = p1 + got.points.array.tobytes()
+                        ev = [c08.canon(v) for v in (got.evlrs or [])]
+                except Exception as e:
+                    ck.fail(f"large file through {kind} ({how}) raised {type(e).__name__}: {e}", inp)
+                    continue
+                if pts != want_pts:
+                    k0 = next((i for i in range(0, min(len(pts), len(want_pts)), 4096) if pts[i:i + 4096] != want_pts[i:i + 4096]), min(len(pts), len(want_pts)))
+                    ck.fail(f"large file through {kind} ({how}): {len(pts) // size} records, first difference near byte {k0} of the point block", inp)
+                elif ev != want_ev:
+                    ck.fail(f"large file through {kind} ({how}): EVLRs differ from the BytesIO read", inp)
+                if kind == "readonly_iface" and any(c in ("seek", "tell") for c in src.log):
+                    ck.fail("a non-seekable source was asked to seek or tell (large file)", inp)
+
+
 def run(ck):
     logging.getLogger("laspy").setLevel(logging.CRITICAL)
     import laspy
@@ -155,6 +200,7 @@ def run(ck):
                 ck.fail(f"memory map path raised {type(e).__name__}: {e}", inp)
             if fi < 2:
                 ck.sample(base)
+        large_layer(ck, 1 if q else 6)
     finally:
         shutil.rmtree(tmpdir, ignore_errors=True)
     out = ck.driver(lines)
